@@ -81,6 +81,10 @@ def build_subject(quiet=True) -> Path:
         th = _tree_hash()
         bindir = CACHE / f"subject-{th}" / "bin"
         if (bindir / "redo").exists() and (bindir / ".ok").exists():
+            try:
+                os.utime(bindir.parent)      # mark as in use (eviction below is by age)
+            except OSError:
+                pass
             ensure_shims_unlocked()
             return bindir
         tdir = target_dir("target")
@@ -93,10 +97,12 @@ def build_subject(quiet=True) -> Path:
             raise MachineryError("cargo build of the subject failed")
         if not quiet:
             print(f"[build] subject built in {time.time()-t0:.1f}s", file=sys.stderr)
-        # keep only the newest two older subjects
+        # evict old subjects, but never one that was used in the last three hours: another check (or a run against
+        # a seeded change in another checkout) may be executing it right now
         olds = sorted([d for d in CACHE.glob("subject-*") if d.is_dir()], key=lambda d: d.stat().st_mtime)
-        for d in olds[:-2]:
-            shutil.rmtree(d, ignore_errors=True)
+        for d in olds[:-3]:
+            if time.time() - d.stat().st_mtime > 3 * 3600:
+                shutil.rmtree(d, ignore_errors=True)
         bindir.mkdir(parents=True, exist_ok=True)
         tmp = bindir / "redo.new"
         shutil.copy2(tdir / "debug" / "redo", tmp)
